@@ -150,14 +150,38 @@ def definitional(c, b):
     return bad
 
 
+def dup_of_closed(rlist):
+    """Left-to-right simulation of which descriptors a redirection list has closed: True if a later `N>&M` / `N<&M` names a closed M."""
+    import re
+    closed = set()
+    for item in rlist:
+        for r in re.findall(r"(\d*)(<>|>>|>\||&>>|&>|>&|<&|<<<|>|<)\s*(\S+)", item):
+            n, op, target = r
+            if op in (">&", "<&") and (target == "-" or target.isdigit()):
+                fd = int(n) if n else (1 if op == ">&" else 0)
+                if target == "-":
+                    closed.add(fd)
+                else:
+                    if int(target) in closed:
+                        return True
+                    closed.discard(fd)
+            elif op in ("&>", "&>>") or (op == ">&" and not n):
+                closed.discard(1)
+                closed.discard(2)
+            else:
+                fd = int(n) if n else (0 if op in ("<", "<<<", "<>") else 1)
+                closed.discard(fd)
+    return False
+
+
 def cluster(c, b, h):
     """Map a divergence to the signature of an open finding, if it is exactly that defect."""
     rl = " ".join(c["rlist"] + (c["rlist2"] or []))
     car = c["carrier"]
     aborted = b is None or not any(t == "@r" for t, _ in b)
     failing = any(x in rl for x in ("missing", "nodir/x", "> .", "1>&3", "7>&9"))
-    if "2>&-" in rl and any(x in rl.split("2>&-", 1)[1] for x in (">&2", "1>&2", "3>&2", "2>&6")):
-        failing = True       # duplicating a descriptor that was just closed
+    if dup_of_closed(c["rlist"]) or (c["rlist2"] and dup_of_closed(c["rlist2"])):
+        failing = True       # duplicating a descriptor that an earlier redirection of the same list closed
     if c["noclobber"]:
         import re
         targets = re.findall(r"(?<![&>|<])\d?> (f\d)", rl)
